@@ -164,3 +164,35 @@ Example C17_example :
   = ([qz 0; qz 1; qz 3], [qz 5; qz 7; qz 2]).
 Proof. apply pair_eq_by_eqb. vm_compute. reflexivity. Qed.
 Print Assumptions C17_example.
+
+(** ---- more bodies REGENERATED as glue terms and proved equal to the model (leaves: Model/GlueLeaves2.v) ---- *)
+From TW Require Import Model.GlueLeaves2 Gen.MatchGlue Gen.UtilsGlue Proofs.GlueMoreProofs.
+Open Scope string_scope.
+Theorem C17_glue_extend_constant : forall a n d, a <> [] ->
+  outcome_arr (call_fun helper_callf helper_methf no_apply no_pow utils_functions "extend_constant"
+     [("a", VArr a); ("n", VInt (Z.of_nat n)); ("direction", VStrV (direction_name d))]) = Ok (extend_constant a n d).
+Proof. exact glue_extend_constant. Qed.
+Print Assumptions C17_glue_extend_constant.
+
+Theorem C17_glue_extend_linspace : forall a n d lstart rstop, (1 <= n)%nat -> extend_linspace_defined a n = true ->
+  outcome_arr (call_fun helper_callf helper_methf no_apply no_pow utils_functions "extend_linspace"
+     [("a", VArr a); ("n", VInt (Z.of_nat n)); ("direction", VStrV (direction_name d)); ("lstart", optQ lstart); ("rstop", optQ rstop)])
+  = Ok (extend_linspace a n d lstart rstop).
+Proof. exact glue_extend_linspace. Qed.
+Print Assumptions C17_glue_extend_linspace.
+
+Theorem C17_glue_oversample_pc : forall a num, a <> [] ->
+  outcome_arr (call_fun helper_callf helper_methf no_apply no_pow utils_functions "oversample_piecewise_constant"
+     [("a", VArr a); ("num", VInt (Z.of_nat num))]) = Ok (oversample_pc a num).
+Proof. exact glue_oversample_pc. Qed.
+Print Assumptions C17_glue_oversample_pc.
+
+(** the default direction is 'both' *)
+Theorem C17_glue_extend_defaults : forall a n,
+  call_fun helper_callf helper_methf no_apply no_pow utils_functions "extend_constant" [("a", VArr a); ("n", VInt n)] =
+  call_fun helper_callf helper_methf no_apply no_pow utils_functions "extend_constant" [("a", VArr a); ("n", VInt n); ("direction", VStrV "both")] /\
+  call_fun helper_callf helper_methf no_apply no_pow utils_functions "extend_linspace" [("a", VArr a); ("n", VInt n)] =
+  call_fun helper_callf helper_methf no_apply no_pow utils_functions "extend_linspace" [("a", VArr a); ("n", VInt n); ("direction", VStrV "both"); ("lstart", VNoneV); ("rstop", VNoneV)].
+Proof. exact glue_extend_defaults. Qed.
+Print Assumptions C17_glue_extend_defaults.
+Close Scope string_scope.
